@@ -482,7 +482,11 @@ def replay_sequence(inputs):
                 else:
                     sym = str(rng.choice(kinds))
                     sel = {sym}
-                new = cur.filter(sym)
+                form = int(rng.integers(0, 4))  # the selection in any of the forms the API accepts
+                arg = sym if isinstance(sym, str) else [list, tuple, frozenset, lambda x: dict.fromkeys(x).keys()][form](sym)
+                if isinstance(sym, str) and form == 1:
+                    arg = (sym,)
+                new = cur.filter(arg)
                 mask = np.array([s in sel for s in csyms])
                 check(new, cview[:, mask], [s for s in csyms if s in sel], f'filter({sym}) result')
                 check(cur, cview, csyms, f'filter({sym}) source')
